@@ -51,6 +51,8 @@ func (i *interpreter) syncMapOf(p value) *omap {
 	return m
 }
 
+type condWaiter struct{ woken bool }
+
 func (i *interpreter) counterOf(p value) *int {
 	addr := p.(*value)
 	if i.counters == nil {
@@ -132,16 +134,37 @@ func initSyncExternals() {
 		i.logUndo(func() { ls.writer = false })
 		return true
 	}
-	condWake := func(fr *frame, a []value) value {
-		i := fr.i
-		addr := a[0].(*value)
-		gen := i.counterOf(addr)
-		*gen++
-		i.logUndo(func() { *gen-- })
-		if i.sched != nil && i.sched.enabled && i.path != nil {
-			i.sched.wgRelease(addr) // not a schedule point of its own: L is held, nobody else can move
+	// sync.Cond: waiters are kept in arrival order. Broadcast wakes all of them; Signal wakes ONE,
+	// the longest-waiting (what the Go runtime's notifyList does: notifyListNotifyOne takes the
+	// lowest ticket), and nobody if none waits: a wake-up that reaches the wrong waiter is LOST for
+	// the others, which is how a Broadcast narrowed to Signal shows up (a deadlock).
+	condWake := func(all bool) externalFn {
+		return func(fr *frame, a []value) value {
+			i := fr.i
+			addr := a[0].(*value)
+			ws := i.condWaiters[addr]
+			n := len(ws)
+			if !all && n > 1 {
+				n = 1
+			}
+			if n > 0 {
+				woken := ws[:n]
+				for _, w := range woken {
+					w.woken = true
+				}
+				i.condWaiters[addr] = ws[n:]
+				i.logUndo(func() {
+					for _, w := range woken {
+						w.woken = false
+					}
+					i.condWaiters[addr] = ws
+				})
+			}
+			if i.sched != nil && i.sched.enabled && i.path != nil {
+				i.sched.wgRelease(addr) // not a schedule point of its own: L is held, nobody else can move
+			}
+			return nil
 		}
-		return nil
 	}
 	m := map[string]externalFn{
 		"(*sync.Mutex).Lock":      lock,
@@ -152,9 +175,8 @@ func initSyncExternals() {
 		"(*sync.RWMutex).RLock":   rlock,
 		"(*sync.RWMutex).RUnlock": runlock,
 		"(*sync.RWMutex).TryLock": trylock,
-		// sync.Cond at contract level: Wait unlocks L, parks until some Signal/Broadcast happens after
-		// the call began, then re-locks L (Signal is modelled as Broadcast: spurious wake-ups are
-		// allowed by the contract, callers re-check their condition in a loop). Signal/Broadcast
+		// sync.Cond at contract level: Wait unlocks L, parks until a Signal/Broadcast issued after
+		// the call began wakes it (see condWake), then re-locks L. Signal/Broadcast
 		// happen-before the return of the Wait they wake.
 		"(*sync.Cond).Wait": func(fr *frame, a []value) value {
 			i := fr.i
@@ -163,16 +185,21 @@ func initSyncExternals() {
 			if i.sched == nil || !i.sched.enabled || i.path == nil {
 				panic(abort{kind: "deadlock", msg: "Cond.Wait (single thread)"})
 			}
-			gen := i.counterOf(addr)
-			my := *gen
+			if i.condWaiters == nil {
+				i.condWaiters = map[*value][]*condWaiter{}
+			}
+			w := &condWaiter{}
+			before := i.condWaiters[addr]
+			i.condWaiters[addr] = append(before[:len(before):len(before)], w)
+			i.logUndo(func() { i.condWaiters[addr] = before })
 			i.sched.unlock(i, mu, true)
-			i.sched.block(i, func() bool { return *gen == my }, "Cond.Wait")
+			i.sched.block(i, func() bool { return !w.woken }, "Cond.Wait")
 			i.sched.cur.vc.join(i.sched.wgvc[addr])
 			i.sched.lock(i, mu, true)
 			return nil
 		},
-		"(*sync.Cond).Broadcast": condWake,
-		"(*sync.Cond).Signal":    condWake,
+		"(*sync.Cond).Broadcast": condWake(true),
+		"(*sync.Cond).Signal":    condWake(false),
 		"(*sync.WaitGroup).Add": func(fr *frame, a []value) value {
 			c := fr.i.counterOf(a[0])
 			d := int(asInt64(a[1]))
